@@ -114,6 +114,12 @@ func hcDrawPlan(rt *rapid.T, focus string) *hcPlan {
 		p.initWU = vs.Pick(c, 0, 0, 1, 70000, 1<<20, 1<<20)
 		nreq = vs.Range(c, 1, 8)
 		postPct, maxBody = 95, 262144
+		if vs.Pct(c, 25) {
+			// requests with bodies queue for a stream slot while SETTINGS change the
+			// initial window: the window in force when the stream finally opens counts
+			p.strict = true
+			p.initMCS = vs.Pick(c, 1, 1, 2)
+		}
 	case "C10":
 		p.connWin = vs.Pick(c, 0, 65535, 100000, 1<<20)
 		p.strWin = vs.Pick(c, 0, 1, 1000, 65535, 1<<20)
@@ -402,6 +408,7 @@ type hcGoAway struct {
 }
 
 type hcStream struct {
+	head    bool // request method HEAD: the response carries no DATA payload
 	cn      *hcConn
 	id      uint32
 	req     int // request index, -1 if unknown
@@ -989,6 +996,10 @@ func (r *hcRun) onClientFrame(cn *hcConn, f *vmFrame) *vs.Violation {
 				st.refused = true
 			}
 		}
+		if v, ok := vmField(f.Fields, ":method"); ok && v == "HEAD" {
+			st.head = true
+			vs.G.Inc("probe.head_request")
+		}
 		if v, ok := vmField(f.Fields, "x-vf-idx"); ok {
 			if i, err := strconv.Atoi(v); err == nil && i >= 0 && i < len(r.reqs) {
 				st.req = i
@@ -1360,8 +1371,14 @@ func (r *hcRun) opStreams(op hcOp) []*hcStream {
 		return r.cands(func(st *hcStream) bool { return hcAlive(st) && st.cliEndKnown && !st.cliRstKnown })
 	case "data", "overdata":
 		return r.cands(func(st *hcStream) bool {
-			if (!st.srvHdr && op.kind == "data") || !hcAlive(st) || st.status == 204 || st.overSent {
+			if (!st.srvHdr && op.kind == "data") || !hcAlive(st) || st.status == 204 || st.overSent || st.head {
 				return false
+			}
+			if op.kind == "overdata" && op.connLvl && f == "C11" && st.cliRstKnown {
+				// a stream the client has reset and forgotten: its stream window is
+				// gone, but DATA on it still counts against - and must be checked
+				// against - the connection window
+				return true
 			}
 			if op.kind == "overdata" {
 				// only streams that are certainly still live on the client: once the
@@ -1474,9 +1491,9 @@ func (r *hcRun) doOp(op hcOp) {
 		for _, o := range r.conns {
 			inflight = inflight || o.sc.InflightAB() != 0 || o.sc.InflightBA() != 0
 		}
-		if inflight || !st.srvHdr {
+		if inflight || (!st.srvHdr && !st.cliRstKnown) {
 			// bring the connection to a state with nothing in flight and try again
-			if !st.srvHdr && cn.gotCliSet {
+			if !st.srvHdr && cn.gotCliSet && !st.cliRstKnown {
 				cn.writeHeaders(st, 200, -1, false)
 			}
 			r.opsRun--
@@ -1498,6 +1515,10 @@ func (r *hcRun) doOp(op hcOp) {
 		r.overRetry = 0
 		// nothing in flight: the client's windows are known exactly
 		ws := cn.cliIW + st.cliWUSum - st.srvFlow
+		if st.cliRstKnown {
+			ws = 1 << 40 // forgotten by the client: no stream window any more
+			vs.G.Inc("probe.over_window_probe_on_forgotten_stream")
+		}
 		wc := 65535 + cn.cliConnWU - cn.srvConnFlow
 		w := ws
 		if op.connLvl {
@@ -1844,6 +1865,10 @@ func (r *hcRun) caller(rq *hcReq) func(tk *vs.Task) {
 		method := "GET"
 		if rq.p.post {
 			method = "POST"
+		} else if r.p.focus == "C17" && rq.idx%3 == 1 {
+			// the scripted server may answer HEAD with HEADERS first and END_STREAM
+			// later (an empty DATA frame): the stream stays open until then
+			method = "HEAD"
 		}
 		req, err := http.NewRequestWithContext(ctx, method, "https://vf.test/r"+strconv.Itoa(rq.idx), nil)
 		if err != nil {
